@@ -70,7 +70,17 @@ def build(n, edges, order, mode, unknown, skip_nb):
         objs = [(EqObj if mode == "eq" else Obj)(i) for i in range(n)]
         g = DiGraph()
         key = id
-    g.add_nodes([objs[i] for i in order])
+    # the collections handed to the graph: every iterable kind (lists, tuples, generators; sets, frozensets and
+    # dict views when the nodes are hashable) - chosen per call from the case itself
+    kinds = [list, tuple, iter]
+    if mode in ("int", "odd"):
+        kinds += [set, frozenset, lambda xs: dict.fromkeys(xs).keys(), frozenset, set]
+    salt = [n + 3 * len(edges) + sum(order[:2])]
+
+    def coll(xs):
+        salt[0] += 1
+        return kinds[salt[0] % len(kinds)](xs)
+    g.add_nodes(coll([objs[i] for i in order]))
     extra = n + 100 if mode in ("int", "odd") else (float("nan") if mode == "nan" else (EqObj(-1) if mode == "eq" else Obj(-1)))
     for a in order:
         nb = [objs[b] for (x, b) in sorted(edges) if x == a]
@@ -78,11 +88,15 @@ def build(n, edges, order, mode, unknown, skip_nb):
             continue            # a node that never gets add_neighbors
         if unknown:
             nb = nb + [extra]
-        if len(nb) > 1:
-            g.add_neighbors(objs[a], nb[:1])
-            g.add_neighbors(objs[a], nb[1:])
+        if len(nb) > 2:
+            g.add_neighbors(objs[a], coll(nb[:1]))
+            g.add_neighbors(objs[a], coll(nb[1:2]))
+            g.add_neighbors(objs[a], coll(nb[2:]))
+        elif len(nb) > 1:
+            g.add_neighbors(objs[a], coll(nb[:1]))
+            g.add_neighbors(objs[a], coll(nb[1:]))
         else:
-            g.add_neighbors(objs[a], nb)
+            g.add_neighbors(objs[a], coll(nb))
     return g, objs, key
 
 
